@@ -34,7 +34,7 @@ func init() {
 		c.Rule = "one string field per program: {minLength,maxLength,pattern} presence x position (required/optional/nullable/definition/nested/optional-with-a-valid-default) x strings of length limit-1, limit, limit+1 in ASCII and in 2-, 3-, 4-byte characters x matching / non-matching text for each pattern form; plus absent and null; plus pattern fidelity: 15 patterns with characters that are awkward in generated source (literal line feed, tab, CR, quotes, backslash escapes, %, non-ASCII) x 19 documents x 3 positions, judged by regexp.MatchString on the schema's own pattern. The reference verdict is judged on ASCII documents (scope F06; byte counting is known finding K1), model = implementation on all. Distinct = distinct (labels, reference verdict, real verdict, document shape)."
 		c.Proofs([]string{"GJS.Props.C06"}, []string{
 			"GJS.Props.C06.ascii_bytes_eq_length", "GJS.Props.C06.string_check_exact_ascii", "GJS.Props.C06.string_check_exact_pattern_only",
-			"GJS.Props.C06.absent_or_null_unchecked", "GJS.Props.C06.present_checked", "GJS.Props.C06.KF_bytes_counterexample", "GJS.Props.C06.KF_carriage_return_discarded", "GJS.Props.C06.rawStringValue_of_noCR",
+			"GJS.Props.C06.absent_or_null_unchecked", "GJS.Props.C06.present_checked", "GJS.Props.C06.KF_bytes_counterexample", "GJS.Props.C06.carriage_return_pattern_exact",
 		})
 		var pcs []*core.PCase
 		patterns := []string{"", "^a", "z$", "^abc$", "b", "^[a-z]*$", "^[0-9]+$"}
@@ -112,8 +112,8 @@ func init() {
 		// documents with characters that are awkward inside generated source text: a literal line feed, tab, carriage
 		// return, quotes, backslash escapes, %, non-ASCII.  The expectation is regexp.MatchString on the schema's
 		// pattern itself — independent of the model, whose closed pattern family does not contain these.
-		hostilePatterns := []string{"^[^\n]*$", "^key\nvalue$", "a\nb", "\t", "^[^\t]+$", "\r\n", "^\"q\"$", "'", "^a\\.b$", "\\d+%", "^%s$", "^[äöü]+$", "日本", "^\\s*$", "^a\n\tb$"}
-		hostileDocs := []string{"", "a", "ab", "a\nb", "a\n\tb", "col1\tcol2", "key\nvalue", "key\n\tvalue", "\r\n", "\"q\"", "it's", "a.b", "axb", "12%", "%s", "äö", "日本語", " \t ", "x\ty\nz"}
+		hostilePatterns := []string{"^[^\n]*$", "^key\nvalue$", "a\nb", "\t", "^[^\t]+$", "\r\n", "^\"q\"$", "'", "^a\\.b$", "\\d+%", "^%s$", "^[äöü]+$", "日本", "^\\s*$", "^a\n\tb$", "a`b", "^`+$", "`\r`"}
+		hostileDocs := []string{"", "a", "ab", "a\nb", "a\n\tb", "col1\tcol2", "key\nvalue", "key\n\tvalue", "\r\n", "\"q\"", "it's", "a.b", "axb", "12%", "%s", "äö", "日本語", " \t ", "x\ty\nz", "a`b", "``", "`\r`", "a\r\nb"}
 		var fidelity []*core.PCase
 		for _, pat := range hostilePatterns {
 			for _, pos := range []Position{PosRequired, PosOptional, PosDef} {
@@ -131,11 +131,6 @@ func init() {
 			pat := r.Case.Labels[0]
 			re, err := regexp.Compile(pat)
 			if err != nil {
-				continue
-			}
-			if strings.Contains(pat, "\r") {
-				// Go discards carriage returns inside raw string literals: listed finding K31, replayed separately
-				c.Count("c06", "pattern with a carriage return (K31 region, skipped)")
 				continue
 			}
 			if r.RunsJ == nil {
